@@ -1,2 +1,3 @@
 pub mod alloc;
 pub mod stream;
+pub mod sparse;
